@@ -326,6 +326,11 @@ fn run_from(
             }
         }
         let sd = &mut sides[si];
+        // An action or timer due at this very instant that is overwritten or cancelled now may already
+        // have fired inside the simulator only if this event was produced after the firing: a BlockingEnd,
+        // a released TunnelSent, or what those cause at the same instant (zero delay). A base NormalSent,
+        // a completion or a timer event of this instant was processed before anything due now could fire.
+        let tie_ok = matches!(e.kind, K_BLOCKING_END | K_TUNNEL_SENT | K_TUNNEL_RECV | K_NORMAL_RECV | 1);
         // the actions returned for this event
         for a in &acts[i] {
             match a {
@@ -336,14 +341,14 @@ fn run_from(
                     }
                     if matches!(timer, Timer::Action | Timer::All) {
                         if let Some((a0, due)) = sd.slot.remove(&m) {
-                            if due == e.t {
+                            if due == e.t && tie_ok {
                                 sd.slot_tie.push((m, a0, due));
                             }
                         }
                     }
                     if matches!(timer, Timer::Internal | Timer::All) {
                         if let Some(exp) = sd.timer.remove(&m) {
-                            if exp == e.t {
+                            if exp == e.t && tie_ok {
                                 sd.timer_tie.push((m, exp));
                             }
                         }
@@ -352,7 +357,7 @@ fn run_from(
                 TriggerAction::SendPadding { timeout, machine, .. } | TriggerAction::BlockOutgoing { timeout, machine, .. } => {
                     let m = machine.into_raw();
                     if let Some((a0, due)) = sd.slot.insert(m, (a.clone(), e.t + dns(timeout))) {
-                        if due == e.t {
+                        if due == e.t && tie_ok {
                             sd.slot_tie.push((m, a0, due));
                         }
                     }
@@ -364,7 +369,7 @@ fn run_from(
                     let sets = *replace || cur.is_none() || new > cur.unwrap();
                     if sets {
                         if let Some(exp) = cur {
-                            if exp == e.t {
+                            if exp == e.t && tie_ok {
                                 sd.timer_tie.push((m, exp));
                             }
                         }
